@@ -1,5 +1,5 @@
 -------------------------- MODULE ClientLifecycleMC --------------------------
 EXTENDS ClientLifecycle, Json
 \* every history that ends with a call, with the model's prediction of what is on the wire
-Emit == LastCall => PrintT(ToJson([hist |-> hist, sent |-> sent, kind |-> Obj.kind, user |-> Live.user]))
+Emit == LastCall => PrintT(ToJson([hist |-> hist, sent |-> sent, kind |-> Obj.kind, user |-> Live.user, stale |-> Live.stale, token |-> Obj.token]))
 =============================================================================
